@@ -526,18 +526,34 @@ def _has_free_var(e):
     return False
 
 
+_INT_KEY = "Int"        # pseudo sort name under which a window of integer positions is handed to _expand (stage R2)
+_KEEP_INT = "keep-Int"  # flag in elems_by_sort: leave quantifiers over Int in place (validation of a candidate model)
+
+
 def _expand(e, elems_by_sort, cache):
     """Finite-scope expansion of a formula: quantifiers over uninterpreted sorts become finite
     conjunctions / disjunctions over the scope's elements, ``card`` becomes the defining sum, equality of
-    arrays indexed by a scoped sort becomes pointwise equality on the scope."""
+    arrays indexed by a scoped sort becomes pointwise equality on the scope.  Quantifiers over Int are expanded over the
+    window elems_by_sort["Int"] when one is given (the result is then only a CANDIDATE generator: see refute_finite), kept in
+    place when elems_by_sort["keep-Int"] is set, and refuse the expansion otherwise."""
     i = e.get_id()
     if i in cache:
         return cache[i][1]
     if z3.is_quantifier(e):
         n = e.num_vars()
         sorts = [e.var_sort(j) for j in range(n)]
+        if elems_by_sort.get(_KEEP_INT) and all(srt.kind() == z3.Z3_INT_SORT for srt in sorts) and not e.is_lambda():
+            # keep the integer quantifier, expand what is below it; bound variables are renamed to fresh constants and re-bound
+            vs = [z3.FreshConst(srt, "qi") for srt in sorts]
+            body = _expand(z3.substitute_vars(e.body(), *reversed(vs)), elems_by_sort, cache)
+            r = z3.ForAll(vs, body) if e.is_forall() else z3.Exists(vs, body)
+            cache[i] = (e, r)
+            return r
         doms = []
         for srt in sorts:
+            if srt.kind() == z3.Z3_INT_SORT and _INT_KEY in elems_by_sort:
+                doms.append(elems_by_sort[_INT_KEY])
+                continue
             if srt.kind() != z3.Z3_UNINTERPRETED_SORT or srt.name() not in elems_by_sort:
                 raise _NoExpansion(f"quantifier over {srt}")
             doms.append(elems_by_sort[srt.name()])
@@ -622,11 +638,38 @@ def _consts_of_sort(exprs, sort_names):
             continue
         seen.add(e.get_id())
         if z3.is_app(e):
-            if e.num_args() == 0 and e.decl().kind() == z3.Z3_OP_UNINTERPRETED and e.sort().kind() == z3.Z3_UNINTERPRETED_SORT \
-                    and e.sort().name() in sort_names:
+            # every ground term of a scoped sort (constants, but also applications such as f(3) or a[x]) must denote one of the scope's elements:
+            # otherwise the "model" would live in a larger universe than the one the quantifiers were expanded over
+            if e.sort().kind() == z3.Z3_UNINTERPRETED_SORT and e.sort().name() in sort_names and e.decl().kind() != z3.Z3_OP_ITE:
                 out[e.get_id()] = e
             todo.extend(e.children())
     return list(out.values())
+
+
+def _functions_map_into_scope(m, sorts, elems):
+    """Stage R2 evaluates the original formulas in the candidate model itself.  The quantifiers over the scoped sorts are expanded over the scope's
+    elements, which is exact only if the model's functions INTO a scoped sort (e.g. position -> node) take no value outside the scope, at the
+    positions the candidate query never mentioned either.  (Stage R needs no such check: there every ground term of a scoped sort is constrained
+    to denote a scope element, so the model restricted to the scope - functions re-directed into it wherever they left it - still satisfies the
+    quantifier-free expansion, and the expansion is exact for that restricted model.)"""
+    names = {srt.name() for srt in sorts}
+    vals = {n: {m.eval(x, model_completion=True).get_id() for x in elems[n]} for n in names}
+    for d in m.decls():
+        rng = d.range()
+        if d.arity() == 0:
+            if _is_arr(rng) and rng.range().kind() == z3.Z3_UNINTERPRETED_SORT and rng.range().name() in names and rng.domain().kind() == z3.Z3_INT_SORT:
+                return False        # an integer-indexed array of scoped values: not inspected, no verdict
+            continue
+        if rng.kind() != z3.Z3_UNINTERPRETED_SORT or rng.name() not in names:
+            continue
+        fi = m[d]
+        if not isinstance(fi, z3.FuncInterp):
+            return False
+        outs = [fi.else_value()] + [fi.entry(i).value() for i in range(fi.num_entries())]
+        for o in outs:
+            if o is None or not z3.is_app(o) or o.num_args() != 0 or o.get_id() not in vals[rng.name()]:
+                return False
+    return True
 
 
 def refute_finite(pc, goal, kmax=6, timeout_ms=REFUTE_TIMEOUT_MS):
@@ -644,6 +687,8 @@ def refute_finite(pc, goal, kmax=6, timeout_ms=REFUTE_TIMEOUT_MS):
         try:
             ex = [_expand(f, elems, cache) for f in fs]
         except _NoExpansion as ex_:
+            if "quantifier over Int" in str(ex_):
+                return _refute_with_int_window(fs, sorts, names, kmax, timeout_ms)
             return "unknown", f"no finite-scope expansion: {ex_}", k
         s = z3.Solver()
         s.set("timeout", timeout_ms)
@@ -660,6 +705,83 @@ def refute_finite(pc, goal, kmax=6, timeout_ms=REFUTE_TIMEOUT_MS):
         r = s.check()
         if r == z3.sat:
             return "refuted", _model_str(s.model()), k
+    return "unknown", "", kmax
+
+
+def _int_consts(exprs):
+    seen, out, todo = set(), {}, list(exprs)
+    while todo:
+        e = todo.pop()
+        if e.get_id() in seen:
+            continue
+        seen.add(e.get_id())
+        if z3.is_quantifier(e):
+            todo.append(e.body())
+        elif z3.is_app(e):
+            if e.num_args() == 0 and e.decl().kind() == z3.Z3_OP_UNINTERPRETED and e.sort().kind() == z3.Z3_INT_SORT:
+                out[e.get_id()] = e
+            todo.extend(e.children())
+    return list(out.values())
+
+
+def _refute_with_int_window(fs, sorts, names, kmax, timeout_ms):
+    """Stage R2, for VCs with quantifiers over Int (positions of a symbolic sequence).  Two steps, the second one makes the verdict sound:
+      1. candidate: uninterpreted sorts get K elements as before, integer quantifiers are instantiated over the window -1 .. K+1 and the
+         integer constants (sequence lengths, positions) are confined to it; the quantifier-free result is solved;
+      2. validation: the ORIGINAL formulas (integer quantifiers untouched, only the uninterpreted sorts expanded over the model's universe)
+         are evaluated in the candidate model by z3's model evaluator; what it leaves open is closed arithmetic and is decided by a solver.
+    Only a candidate that satisfies every original formula is reported (`refuted`); anything else stays `unknown`."""
+    t_end = time.time() + 4 * timeout_ms / 1000.0
+    for k in range(1, min(kmax, 4) + 1):
+        if time.time() > t_end:
+            break
+        elems = {srt.name(): [z3.Const(f"{srt.name()}#{i}", srt) for i in range(k)] for srt in sorts}
+        window = dict(elems)
+        window[_INT_KEY] = [z3.IntVal(v) for v in range(-1, k + 2)]
+        try:
+            ex = [_expand(f, window, {}) for f in fs]
+        except _NoExpansion as ex_:
+            return "unknown", f"no finite-scope expansion: {ex_}", k
+        s = z3.Solver()
+        s.set("timeout", timeout_ms)
+        for f in ex:
+            s.add(f)
+        scoped = {x.get_id() for els in elems.values() for x in els}
+        for srt in sorts:
+            if k > 1:
+                s.add(z3.Distinct(*elems[srt.name()]))
+        for c in _consts_of_sort(ex, names):
+            if c.get_id() not in scoped:
+                s.add(z3.Or([c == x for x in elems[c.sort().name()]]))
+        for c in _int_consts(ex):
+            s.add(c >= -1, c <= k + 1)
+        if s.check() != z3.sat:
+            continue
+        m = s.model()
+        if not _functions_map_into_scope(m, sorts, elems):
+            continue
+        keep = dict(elems)
+        keep[_KEEP_INT] = True
+        ok = True
+        try:
+            for f in fs:
+                g = _expand(f, keep, {})
+                v = m.eval(g, model_completion=True)
+                if z3.is_true(v):
+                    continue
+                if z3.is_false(v):
+                    ok = False
+                    break
+                s2 = z3.Solver()
+                s2.set("timeout", 3000)
+                s2.add(z3.Not(v))
+                if s2.check() != z3.unsat:
+                    ok = False
+                    break
+        except (_NoExpansion, z3.Z3Exception):
+            ok = False
+        if ok:
+            return "refuted", "(integer quantifiers: candidate from the window -1..%d, validated against the unexpanded formulas)\n" % (k + 1) + _model_str(m), k
     return "unknown", "", kmax
 
 
